@@ -184,11 +184,37 @@ fn consistent(e: &Env, s: &Store, i: &crate::svm::Ix) -> bool {
     true
 }
 
+/// Cooperating substitution of a marginfi account: the substitute `na` (already placed in its slot) gets the risk
+/// accounts a client would pass for it - one (bank, oracle) group per active position and one per bank named in the
+/// instruction's own slots, sorted by bank key, descending.
+fn account_bundle(s: &Store, i: &mut crate::svm::Ix, na: &Pubkey) {
+    use solana_program::instruction::AccountMeta;
+    let is_bank = |p: &Pubkey| s.get(p).map(|a| a.owner == marginfi::ID && a.data.len() >= 8 && a.data[..8] == discriminators::BANK).unwrap_or(false);
+    let last_prog = i.accounts.iter().rposition(|m| s.get(&m.pubkey).map(|a| a.executable).unwrap_or(false) || m.pubkey == solana_program::sysvar::instructions::id());
+    let from = last_prog.map(|x| x + 1).unwrap_or(0);
+    let t0 = (from..i.accounts.len()).find(|&x| is_bank(&i.accounts[x].pubkey)).unwrap_or(i.accounts.len());
+    i.accounts.truncate(t0);
+    let Some(acc) = world::try_account(s, na) else { return };
+    let mut banks: Vec<Pubkey> = acc.lending_account.balances.iter().filter(|b| b.is_active()).map(|b| b.bank_pk).collect();
+    for m in i.accounts.iter() {
+        if is_bank(&m.pubkey) && !banks.contains(&m.pubkey) {
+            banks.push(m.pubkey);
+        }
+    }
+    banks.sort_by(|a, b| b.cmp(a));
+    for b in banks {
+        let bb = world::bank(s, &b);
+        i.accounts.push(AccountMeta::new_readonly(b, false));
+        i.accounts.push(AccountMeta::new_readonly(bb.config.oracle_keys[0], false));
+    }
+}
+
 /// Cooperating substitution of a whole bank: every occurrence of bank `k` in the instruction (main slot and risk
 /// accounts) becomes the foreign bank `fb`, together with everything that hangs off it - vaults, vault authorities,
 /// oracle, mint - and every token account of `k`'s mint is exchanged for the same wallet's token account of `fb`'s
-/// mint. What is left wrong is only the link between the bank and the group / the marginfi account. With `resort`
-/// the trailing (bank, oracle, ...) groups are re-ordered by bank key, descending, as the risk engine expects them.
+/// mint. What is left wrong is only the link between the bank and the group / the marginfi account. Modes:
+/// 0 = the risk accounts are rewritten in place, 1 = and re-ordered by bank key (descending, as the risk engine expects
+/// them), 2 = the risk accounts keep the original bank and list the foreign one in addition, sorted.
 fn full_bundle(e: &Env, s: &Store, i: &mut crate::svm::Ix, k: &Pubkey, fb: &Pubkey, mode: u8) {
     use solana_program::instruction::AccountMeta;
     let kb = world::bank(s, k);
@@ -360,6 +386,7 @@ fn substitutes(e: &Env, s: &Store, k: &Pubkey) -> (String, Vec<Sub>) {
                 "marginfi_account".into(),
                 vec![
                     Sub { what: "an account of the foreign group with the same authority", key: key("FG:acct:shared"), forge: None },
+                    Sub { what: "account bundle: an account of the foreign group with the same authority, the risk accounts rebuilt for its positions plus the instruction's banks, sorted by bank key", key: key("FG:acct:shared"), forge: None },
                     Sub { what: "another user's account of the same group", key: if *k == w.users[1].account { w.users[0].account } else { w.users[1].account }, forge: None },
                     Sub { what: "same bytes, wrong owner program", key: key("c08:wrongowner:acct"), forge: Some(copy_with(a, Some(spl_token::id()), false)) },
                     Sub { what: "same bytes, wrong discriminator", key: key("c08:wrongdisc:acct"), forge: Some(copy_with(a, None, true)) },
@@ -572,6 +599,9 @@ pub fn run(_tier: Tier) -> Outcome {
                                 m.pubkey = world::bank(&s1, &fb).config.oracle_keys[0];
                             }
                         }
+                    }
+                    if sub.what.starts_with("account bundle") {
+                        account_bundle(&s1, &mut tx.ixs[ii], &sub.key);
                     }
                     if sub.what.starts_with("full bundle") {
                         full_bundle(&e, &s1, &mut tx.ixs[ii], &k, &sub.key, if sub.what.contains("added to the risk accounts") { 2 } else if sub.what.contains("re-sorted") { 1 } else { 0 });
